@@ -19,6 +19,7 @@ type snapRun struct {
 	Buf          bytes.Buffer
 	Err          error
 	SBegin, SEnd int
+	Free         bool // free-parallel run: see the rule for hi in checkSnapRun
 }
 
 func startSnapRun(p *concProgram, capacity int) *snapRun {
@@ -92,13 +93,20 @@ func checkSnapRun(sr *snapRun) (string, bool, []string) {
 			}
 		}
 		lo, hi := 0, 0
-		for _, i := range idx {
+		for n, i := range idx {
 			ref := refs[i]
 			if sr.Ack[ref.Task][ref.Txn] != 0 && sr.Ack[ref.Task][ref.Txn] < sr.SBegin {
 				lo++
 			}
-			if sr.Clocks[i] < sr.SEnd {
+			if !sr.Free && sr.Clocks[i] < sr.SEnd {
 				hi++
+			}
+			// Under real parallelism a commit reaches the snapshot's recorder before it reaches
+			// the recording logger (both under the block latch), and Snapshot can return in
+			// between: the commit was applied when Snapshot returned although its logical time
+			// is later. The sound bound there: its transaction had at least begun.
+			if sr.Free && sr.Begin[ref.Task][ref.Txn] < sr.SEnd {
+				hi = n + 1
 			}
 		}
 		m := sr.P.Init.M.Clone()
